@@ -657,3 +657,94 @@ class System:
             s += f" -water {water!r}\n"
         s += " " + "\t".join(heads) + "\n " + "\t".join(vals) + "\n"
         return s
+
+
+class History:
+    """a multi-simulation history: two solutions and a reactant (exchange / surface / gas / kinetics / equilibrium phases) defined in
+    simulation 1 and reacted; solution and reactant SAVEd under new numbers, reacted again with an added REACTION in simulation 2,
+    mixed with the second solution in simulation 3. render(numbers, k, shuffle seed) → input text; physically irrelevant: the entity
+    numbers (any injective choice), the order of keyword blocks inside a simulation, a common factor on water and amounts."""
+    KINDS = ["exchange", "surface", "gas", "kinetics", "batch"]
+
+    def __init__(self, rng, db, kind, fam=None):
+        self.db, self.kind = db, kind
+        self.temp = rng.choice([25.0, 25.0, 15.0, 40.0])
+        self.A = pick_elems(rng, 2, 5, allow_alk=False)
+        for e in ("Na", "Cl", "Ca"):
+            if e not in self.A:
+                self.A.append(e)
+        self.B = pick_elems(rng, 2, 4, allow_alk=False)
+        if "Cl" not in self.B:
+            self.B.append("Cl")
+        self.amA, self.amB = gen_amounts(rng, self.A), gen_amounts(rng, self.B)
+        self.phA, self.phB = round(rng.uniform(6, 8.5), 2), round(rng.uniform(6, 8.5), 2)
+        self.wA, self.wB = rng.choice([1.0, 0.4, 2.5]), rng.choice([1.0, 0.5, 2.0])
+        self.salt = (rng.choice(["NaCl", "KCl", "CaCl2"]), round(10 ** rng.uniform(-4, -2.5), 7))
+        self.acid = (rng.choice(["HCl", "NaOH", "NaCl"]), round(10 ** rng.uniform(-5.5, -4), 8))
+        self.f = [round(rng.uniform(0.2, 1.2), 3), round(rng.uniform(0.2, 1.2), 3)]
+        self.x = round(10 ** rng.uniform(-3, -1.7), 6)
+        self.w = round(10 ** rng.uniform(-4, -2.8), 7)
+        self.V = round(rng.uniform(0.3, 1.5), 3)
+        self.gases = rng.sample([("CO2(g)", round(10 ** rng.uniform(-3, -1), 5)), ("N2(g)", round(rng.uniform(0.1, 0.8), 3)),
+                                 ("O2(g)", round(rng.uniform(0.01, 0.2), 3))], rng.randint(1, 3))
+        self.rate = round(10 ** rng.uniform(-7, -5.5), 10)
+        self.m0 = round(10 ** rng.uniform(-3, -1.7), 6)
+        self.order = 0 if fam in ("hist_water", "hist_all") else rng.choice([0, 1])
+        self.time = rng.choice([3600.0, 20000.0])
+        self.phases = rng.sample([("Calcite", 0.0), ("Gypsum", 0.0), ("Quartz", 0.0), ("CO2(g)", -2.5)], rng.randint(1, 2))
+        self.pmoles = {p: round(10 ** rng.uniform(-3, -1.5), 6) for p, _ in self.phases}
+
+    def reactant(self, num, n1, k):
+        kd = self.kind
+        if kd == "exchange":
+            return "exchange", f"EXCHANGE {num}\n X {fmt(self.x * k)}\n -equilibrate {n1}\n"
+        if kd == "surface":
+            return "surface", (f"SURFACE {num}\n Hfo_w {fmt(self.w * k)} 600.0 {fmt(self.w * k * 445.0)}\n Hfo_s {fmt(self.w * k / 40)}\n"
+                               f" -equilibrate {n1}\n")
+        if kd == "gas":
+            return "gas_phase", (f"GAS_PHASE {num}\n -fixed_volume\n -volume {fmt(self.V * k)}\n -temperature {self.temp!r}\n"
+                                 + "".join(f" {g} {p!r}\n" for g, p in self.gases))
+        if kd == "kinetics":
+            return "kinetics", (f"KINETICS {num}\n Dissolve\n -formula KBr 1.0\n -m0 {fmt(self.m0 * k)}\n -parms {self.rate!r}\n"
+                                f" -steps {self.time!r} in 2 steps\n")
+        return "equilibrium_phases", (f"EQUILIBRIUM_PHASES {num}\n" + "".join(f" {p} {si!r} {fmt(self.pmoles[p] * k)}\n" for p, si in self.phases))
+
+    def render(self, N=None, k=1.0, shuffle=None):
+        N = N or {}
+        g = lambda key, d: N.get(key, d)
+        n1, n2, n3, n4, n5 = g("s1", 1), g("s2", 2), g("s3", 3), g("s4", 4), g("s5", 5)
+        r1, r2, q1, q2, m = g("r1", 1), g("r2", 2), g("q1", 1), g("q2", 2), g("m", 1)
+        db = self.db
+        kw, rb = self.reactant(r1, n1, k)
+        kin = self.kind == "kinetics"
+        rsave = r1 if kin else r2
+        obs_extra = {"exchange": [("i", "m_NaX", 'MOL("NaX")'), ("i", "m_CaX2", 'MOL("CaX2")'), ("e", "totmole_X", 'TOTMOLE("X")')],
+                     "surface": [("i", "m_Hfo_wOH", 'MOL("Hfo_wOH")'), ("e", "totmole_Hfo_w", 'TOTMOLE("Hfo_w")')],
+                     "gas": [("e", f"gas_{gn}", f'GAS("{gn}")') for gn, _ in self.gases],
+                     "kinetics": [("e", "kin", 'KIN("Dissolve")')],
+                     "batch": [("e", f"equi_{p}", f'EQUI("{p}")') for p, _ in self.phases]}[self.kind]
+        eo = list(dict.fromkeys(self.A + self.B + (["K", "Br"] if kin else []) + (["K"] if self.salt[0] == "KCl" else [])))
+        obs = observables(eo, obs_extra)
+        sims = []
+        s1 = [solution_block(db, n1, self.phA, self.temp, self.wA * k, self.amA, plain_exprs(self.A), "mol/kgw", list(self.A)),
+              solution_block(db, n2, self.phB, self.temp, self.wB * k, self.amB, plain_exprs(self.B), "mol/kgw", list(self.B)),
+              rb, f"REACTION {q1}\n {self.salt[0]} 1.0\n {fmt(self.salt[1] * k)} moles\n",
+              f"USE solution {n1}\n", f"USE {kw} {r1}\n", f"USE reaction {q1}\n", f"SAVE solution {n3}\n"]
+        if not kin:
+            s1.append(f"SAVE {kw} {r2}\n")
+        s2 = [f"USE solution {n3}\n", f"USE {kw} {rsave}\n", f"REACTION {q2}\n {self.acid[0]} 1.0\n {fmt(self.acid[1] * k)} moles\n",
+              f"SAVE solution {n4}\n"] + ([] if kin else [f"SAVE {kw} {rsave}\n"])
+        s3 = [f"MIX {m}\n {n4} {self.f[0]!r}\n {n2} {self.f[1]!r}\n", f"USE {kw} {rsave}\n", f"SAVE solution {n5}\n"]
+        s4 = [f"USE solution {n5}\n", f"USE reaction {q1}\n"]
+        sims = [s1, s2, s3, s4]
+        if shuffle is not None:
+            rr = __import__("random").Random(shuffle)
+            for sm in sims:
+                rr.shuffle(sm)
+        text = punch_block(obs)
+        if kin:
+            law = "PARM(1) * M" if self.order == 1 else "PARM(1) * TOT(\"water\")"
+            text += f"RATES\n Dissolve\n -start\n 10 rate = {law}\n 20 moles = rate * TIME\n 30 SAVE moles\n -end\n"
+        for sm in sims:
+            text += "".join(sm) + "END\n"
+        return text, obs
